@@ -42,37 +42,63 @@ SM = 'calmjs.parse.sourcemap'
 
 # fragment shapes: (text, lineno, colno, original name, source)
 TEXTS = ('a', 'bcd', ' ', 'x\n', '\n')
+# line ends other than LF, and characters str.splitlines() treats as line
+# boundaries although the statement (LF, CR, CRLF) does not
+WIDE_TEXTS = TEXTS + ('y\r\n', 'z\r', 'p\x0cq', 'v\x0b\x85\u2028w')
 
 
-def fragment_alphabet():
-    """abstract fragments; positions are filled in by `concretise`"""
+def fragment_alphabet(wide=False):
+    """abstract fragments; positions are filled in by `concretise`.
+    wide: more texts and more ways the source position moves"""
     out = []
-    for text in TEXTS:
+    for text in (WIDE_TEXTS if wide else TEXTS):
         out.append((text, 'none', None, 'S1'))       # no position
         out.append((text, 'pos', None, 'S1'))        # explicit position
         if text.strip():
             out.append((text, 'pos', 'orig', 'S1'))  # renamed identifier
             out.append((text, 'pos', None, 'S2'))    # second source file
             out.append((text, 'zero', None, 'S1'))   # implied position 0:0
+            if wide:
+                # the source position goes back to an earlier line, stays
+                # on the line exactly where the previous fragment ended
+                # (the case normalisation drops), or jumps on the line
+                out.append((text, 'back', None, 'S1'))
+                out.append((text, 'cont', None, 'S1'))
+                out.append((text, 'back-aligned', None, 'S1'))
     return out
 
 
 def concretise(stream):
-    """give the positioned fragments increasing source positions"""
+    """give the positioned fragments source positions"""
     out = []
-    line, col = 1, 1
+    line, col = 3, 1
+    prev_len = 0
     for i, (text, kind, name, source) in enumerate(stream):
         if kind == 'none':
             out.append((text, None, None, None, source + '.js'))
-        elif kind == 'zero':
+            prev_len = len(text)
+            continue
+        if kind == 'zero':
             out.append((text, 0, 0, None, source + '.js'))
-        else:
+            prev_len = len(text)
+            continue
+        if kind == 'pos':
             # positions move forward, sometimes to a new source line
             col += 2 + i
             if i % 2:
                 line += 1
                 col = 1 + i
-            out.append((text, line, col, name, source + '.js'))
+        elif kind == 'back':
+            line = max(1, line - 2)
+            col = 1 + i
+        elif kind == 'cont':
+            col += prev_len
+        elif kind == 'back-aligned':
+            # an earlier line, at the column a continuation would have
+            line = max(1, line - 1)
+            col += prev_len
+        out.append((text, line, col, name, source + '.js'))
+        prev_len = len(name) if name else len(text)
     return out
 
 
@@ -160,12 +186,18 @@ def expectations(fragments):
         text, lineno, colno, name, source = frag
         if lineno and colno:
             out.append((gl, gc, frag))
-        for ch in text:
-            if ch == '\n':
+        i = 0
+        while i < len(text):
+            ch = text[i]
+            if ch == '\r' and text[i + 1:i + 2] == '\n':
+                i += 1
+                ch = '\n'
+            if ch in '\r\n':
                 gl += 1
                 gc = 0
             else:
                 gc += 1
+            i += 1
     return out
 
 
@@ -183,7 +215,8 @@ def check_stream(model, fragments, normalize):
     if text != want_text:
         problems.append('the written text is %r, the fragments spell %r'
                         % (text, want_text))
-    nlines = len(want_text.split('\n'))
+    import re as _re
+    nlines = len(_re.split(r'\r\n|\r|\n', want_text))
     if len(mappings) != nlines:
         problems.append('%d mapping line(s) for %d line(s) of text' % (
             len(mappings), nlines))
@@ -225,6 +258,11 @@ def check_stream(model, fragments, normalize):
                 problems.append('%s does not carry its original name %r'
                                 % (where, name))
     return problems
+
+
+def crlf_split(frags):
+    return any(a[0].endswith('\r') and b[0].startswith('\n')
+               for a, b in zip(frags, frags[1:]))
 
 
 def classify(problem):
@@ -276,12 +314,19 @@ def run(report, index, tier):
                      'to %d fragments, normalisation off and on)' % bound,
                      floor=1000)
     alpha = fragment_alphabet()
+    wide = fragment_alphabet(wide=True)
     failing = {}
     n = 0
     jobs = []
-    for k in range(1, bound + 1):
-        for stream in itertools.product(alpha, repeat=k):
-            jobs.append(concretise(stream))
+    seen_jobs = set()
+    for alphabet, upto in ((alpha, bound), (wide, bound - 1)):
+        for k in range(1, upto + 1):
+            for stream in itertools.product(alphabet, repeat=k):
+                job = concretise(stream)
+                key = repr(job)
+                if key not in seen_jobs:
+                    seen_jobs.add(key)
+                    jobs.append(job)
     import concurrent.futures as cf
     import os
     workers = min(16, os.cpu_count() or 1)
@@ -298,8 +343,13 @@ def run(report, index, tier):
         if not problems:
             r1.ok('stream')
             continue
-        failing.setdefault((normalize, classify(problems[0])), []).append(
-            (frags, problems))
+        cls = classify(problems[0])
+        if crlf_split(frags) and ('mapping line' in problems[0] or
+                                  'maps to' in problems[0] or
+                                  'no mapping' in problems[0]):
+            cls = 'a CR ending one fragment and an LF starting the next ' \
+                'are counted as two line breaks'
+        failing.setdefault((normalize, cls), []).append((frags, problems))
     for (normalize, cls), items in sorted(failing.items(),
                                           key=lambda kv: repr(kv[0])):
         frags, problems = min(items, key=lambda it: len(it[0]))
@@ -339,6 +389,40 @@ def run(report, index, tier):
                  'encode_sourcemap(mappings=%r)' % (mappings,),
                  'yields %r (decoded mappings: %r)' % (got, back),
                  where='sourcemap.py:encode_sourcemap')
+    # R09.3: sources keep their indices through path normalisation ---------
+    r3 = report.rule('R09.3', 'verify_write_sourcemap_args keeps one entry '
+                     'per source, in order (the indices in the mappings '
+                     'stay valid)', floor=3)
+    from .c18 import path_evaluator, designates
+    utils = index.need('calmjs.parse.utils')
+    nrp = need_function(utils, 'normrelpath')
+    vw = need_function(model.m, 'verify_write_sourcemap_args')
+    for srcs in (['/p/src/a.js', '/p/src/b.js'],
+                 ['/p/src/a.js', '/p/build/../src/a.js', '/p/src/c.js'],
+                 ['/p/src/a.js', '/p/src/a.js'],
+                 ['/p/a.js', '/q/a.js', '/p/./a.js', '/r/z.js']):
+        ev = path_evaluator(model.m)
+        ev.functions['normrelpath'] = lambda b, t: path_evaluator(
+            utils).call(nrp, [b, t])[0]
+        try:
+            got, _ = ev.call(vw, [[], list(srcs), [], Obj(
+                'Stream', name='/p/build/out.js'), Obj(
+                'Stream', name='/p/build/out.js.map')])
+            gsrcs = got[0][2]
+        except Raised as e:
+            gsrcs = 'raises %s' % e.text
+        ok = isinstance(gsrcs, list) and len(gsrcs) == len(srcs) and all(
+            designates('/p/build/out.js.map', g, s_)
+            for g, s_ in zip(gsrcs, srcs))
+        r3.check(ok, 'sources %r' % (srcs,),
+                 'verify_write_sourcemap_args(sources=%r)' % (srcs,),
+                 'yields the sources %r: entry i no longer designates '
+                 'source i, so the source indices already in the mappings '
+                 'point at the wrong file or out of range' % (gsrcs,),
+                 where='sourcemap.py:verify_write_sourcemap_args')
+    # the digits must be the canonical Base64 VLQ ones (rules of C10)
+    from . import c10
+    c10.rules(report, index)
     report.not_decided += [
         'fragment streams longer than %d fragments and positions other '
         'than the representative ones' % bound,
